@@ -99,6 +99,25 @@ func opHist(p []string) string {
 			dst2 := reflect.New(t)
 			e2, pn2 := safely(func() error { return refmt.UnmarshalAtlased(h.dopts(), data, dst2.Interface(), a.atl) })
 			fresh = resStr(dumpValue(dst2.Elem()), e2, pn2)
+		case "X":
+			// clone into a variable of ANOTHER type: the destination may reject in the middle of the source's stream
+			rv, err := buildValue(t, f[3])
+			if err != nil {
+				return "bad-op"
+			}
+			id2, _ := strconv.Atoi(f[4])
+			t2 := typeByID[id2]
+			src := reflect.New(t)
+			src.Elem().Set(rv)
+			if h.c[a.id] == nil {
+				h.c[a.id] = refmt.NewCloner(a.atl)
+			}
+			dst := reflect.New(t2)
+			e, pn := safely(func() error { return h.c[a.id].Clone(src.Interface(), dst.Interface()) })
+			reused = resStr(dumpValue(dst.Elem()), e, pn)
+			dst2 := reflect.New(t2)
+			e2, pn2 := safely(func() error { return refmt.CloneAtlased(src.Interface(), dst2.Interface(), a.atl) })
+			fresh = resStr(dumpValue(dst2.Elem()), e2, pn2)
 		case "C":
 			rv, err := buildValue(t, f[3])
 			if err != nil {
